@@ -50,7 +50,8 @@ theorem shift_hosts (cfg : Cfg) (e : EL) (hg : e.Good) (hf : ∀ r ∈ e.ranges,
     every variant — D20 is about what the iterators see afterwards) -/
 theorem pop_hosts (cfg : Cfg) (e : EL) (hg : e.Good) (hf : ∀ r ∈ e.ranges, r.ShiftFits) :
     ∃ e', popE cfg e = .ok (e.hosts.getLast?, e') ∧ e'.hosts = e.hosts.dropLast ∧ e'.Good :=
-  popE_hosts cfg e hg hf
+  match popE_hosts cfg e hg hf with
+  | ⟨e', h1, h2, h3, _⟩ => ⟨e', h1, h2, h3⟩
 
 /-- UNIQ keeps the SET of names: whenever `hostlist_uniq` returns (no assertion failure), every
     name of the list is still there and no name was invented — provided `hostrange_cmp` orders the
